@@ -5,9 +5,9 @@
    - with append: the directory is listed, the first 20 bytes of every listed infix are parsed as a time stamp, the NEWEST one is
      taken - it may be older than the present second -, and the newest file with that time stamp (the predecessor of the next
      free infix) is continued under its old name.
-   The time stamp read back from a file name is interpreted as LOCAL time (ts_from_infix), the infix is written as UTC when
-   use_utc is set: with append, use_utc and a zone offset <> 0 the writer does not find its newest file (see
-   TsdRestart.tsd_utc_append_reorders); the lemmas for append therefore ask for woff w = e. *)
+   The time stamp read back from a file name is interpreted the way the infix was written: as UTC when use_utc is set, as
+   local time otherwise (ts_from_infix; before the repair it was always read as local time, and with append, use_utc and a
+   zone offset <> 0 the writer did not find its newest file). *)
 Require Import FL.Base.Bytes FL.Base.BytesFacts FL.Base.PathName FL.Fs.Fs FL.Fs.FsFacts FL.Time.Civil FL.Time.TsFormat
   FL.Names.FileSpec FL.Names.NamesFacts FL.Names.SortFacts FL.Names.FamilyFacts FL.Flw.Model FL.Flw.ModelFacts FL.Flw.NumFs
   FL.Flw.NumInv FL.Flw.Run FL.Flw.RunFacts FL.Flw.NumRun FL.Flw.NumListing FL.Flw.NumRestart FL.Flw.NumDInv
@@ -98,8 +98,8 @@ Proof.
     rewrite kname_shape by exact Y. fold (sfxs (c_spec c)). rewrite <- !app_assoc. reflexivity.
 Qed.
 
-Lemma ts_from_infix_tsx w e t : in_years e t -> woff w = e -> ts_from_infix w std_fmt (tsx e t) = Some t.
-Proof. intros Y E. unfold ts_from_infix. rewrite (parse_tsx e t Y), E. f_equal. lia. Qed.
+Lemma ts_from_infix_tsx c w e t : in_years e t -> eoff c w = e -> ts_from_infix c w std_fmt (tsx e t) = Some t.
+Proof. intros Y E. unfold ts_from_infix. rewrite (parse_tsx e t Y). unfold eoff in E. destruct (c_utc c); f_equal; lia. Qed.
 
 (* the last key carries the latest second, and it is the newest file of that second *)
 Lemma keys_last_max keys n : keys_ok keys -> length keys = S n -> forall k, In k keys -> (fst k <= fst (nth n keys kd))%Z.
@@ -118,10 +118,10 @@ Proof.
 Qed.
 
 Lemma latest_ts_tsd c crit e lo hi w wr keys closed :
-  tsdcfg c crit -> probe_ok c -> years_ok e lo hi -> TsdInv c e lo w wr keys closed -> (wnow w <= hi)%Z -> woff w = e ->
+  tsdcfg c crit -> probe_ok c -> years_ok e lo hi -> TsdInv c e lo w wr keys closed -> (wnow w <= hi)%Z ->
   latest_timestamp_file c w false std_fmt = (Ok (fst (nth (length closed) keys kd)), w).
 Proof.
-  intros [_ [Hts _]] P Y I Hhi Hoff'.
+  intros [_ [Hts _]] P Y I Hhi.
   pose proof I as [Q W Hnd Hoff Hlen Hc Hcp Hcl Hon Hko Hrg Hwr Hcap].
   assert (Yk : forall k, In k keys -> in_years e (fst k)).
   { intros k Ik. apply (years_in e lo hi); [exact Y|]. specialize (Hrg k Ik). lia. }
@@ -142,13 +142,13 @@ Proof.
   set (h := fun x => match ts_infix_from_name (c_spec c) (fixed0 c) x with Some i => i | None => [] end).
   rewrite (map_opt_some _ h).
   2:{ intros x Ix. destruct (A x Ix) as [k [Ik ->]]. unfold h. rewrite (ts_infix_kname c e k P (Yk k Ik)). reflexivity. }
-  set (L := filter_some (List.map (ts_from_infix w std_fmt) (List.map h files))).
+  set (L := filter_some (List.map (ts_from_infix c w std_fmt) (List.map h files))).
   assert (HL : forall v, In v L <-> exists k, In k keys /\ v = fst k).
   { intros v. unfold L. rewrite filter_some_in, map_map, in_map_iff. split.
     - intros [x [Ex Ix]]. destruct (A x Ix) as [k [Ik ->]]. exists k. split; [exact Ik|].
-      unfold h in Ex. rewrite (ts_infix_kname c e k P (Yk k Ik)), (ts_from_infix_tsx w e _ (Yk k Ik) Hoff') in Ex. congruence.
+      unfold h in Ex. rewrite (ts_infix_kname c e k P (Yk k Ik)), (ts_from_infix_tsx c w e _ (Yk k Ik) Hoff) in Ex. congruence.
     - intros [k [Ik ->]]. exists (kname c e k). split; [|apply B; exact Ik].
-      unfold h. rewrite (ts_infix_kname c e k P (Yk k Ik)). apply ts_from_infix_tsx; [apply Yk; exact Ik | exact Hoff']. }
+      unfold h. rewrite (ts_infix_kname c e k P (Yk k Ik)). apply ts_from_infix_tsx; [apply Yk; exact Ik | exact Hoff]. }
   pose proof (max_z_spec L) as M.
   assert (Il : In (nth (length closed) keys kd) keys) by (apply nth_In; lia).
   destruct (max_z L) as [m|].
@@ -247,13 +247,12 @@ Proof.
 Qed.
 
 (* ------------------------------------------------------------------ the first write of a writer: a directory left behind *)
-(* the hypothesis for a writer with append: the texts of the time stamps are written with the offset with which they are
-   read back, and the infix is found in the names *)
-Definition append_ok (c : config) (e : Z) (w : world) : Prop := c_append c = true -> woff w = e /\ probe_ok c.
+(* the hypothesis for a writer with append: the infix is found in the names *)
+Definition append_ok (c : config) : Prop := c_append c = true -> probe_ok c.
 
 Lemma initialize_view_tsd c crit e lo hi w wr keys closed :
   tsdcfg c crit -> tag_ok c -> years_ok e lo hi -> TsdInv c e lo w wr keys closed -> wpend wr = [] ->
-  (wnow w <= hi)%Z -> (N.of_nat (length keys) <= usize_max)%N -> append_ok c e w ->
+  (wnow w <= hi)%Z -> (N.of_nat (length keys) <= usize_max)%N -> append_ok c ->
   exists w' wr' roll keys' closed',
     initialize c w = (Ok (Active (Some (mk_rs (NSTs (fst (nth (length closed') keys' kd)) None std_fmt) roll)) wr'
                                  (kname c e (nth (length closed') keys' kd))), w')
@@ -270,10 +269,10 @@ Proof.
   unfold initialize. rewrite Hrot. unfold init_naming.
   destruct (c_append c) eqn:Ha; cbn [negb].
   - (* append: the newest file of the newest second is continued *)
-    destruct (Happ Ha) as [Hoff' P].
+    pose proof (Happ Ha) as P.
     set (kl := nth (length closed) keys kd) in *.
     assert (Ikl : In kl keys) by (apply nth_In; lia).
-    rewrite (latest_ts_tsd c crit e lo hi w wr keys closed Hcfg P Y I Hhi Hoff'). cbn [bind]. fold kl.
+    rewrite (latest_ts_tsd c crit e lo hi w wr keys closed Hcfg P Y I Hhi). cbn [bind]. fold kl.
     unfold collision_free. rewrite !tick_quiet by assumption.
     rewrite (fixed_of_fixed0 c w Hts), infix_from_ts_tsx, Hoff.
     pose proof (keys_last_count keys (length closed) Hko Hlen) as Ecnt. fold kl in Ecnt.
